@@ -21,7 +21,7 @@ from concurrent.futures import ThreadPoolExecutor
 from datetime import datetime, timedelta, timezone
 from urllib.parse import parse_qsl, urlsplit
 
-from .common import Report, jhash
+from .common import Report, jhash, guarded
 from .tlc import run_tlc, require_ok
 
 TOKEN = "verif-token-C20"
@@ -370,6 +370,7 @@ def _replay_protocol_variant(b, docs, variant):
     return None
 
 
+@guarded
 def replay_protocol(b):
     docs = {int(k): v for k, v in b["docs"].items()}
     call = b["call"]
@@ -403,6 +404,7 @@ class _Other(dict):
 _OTHER_ZONE = _Other()
 
 
+@guarded
 def replay_time(c):
     """One lattice case (zone, instant) through parse_http_date / http_date."""
     import pytz
@@ -439,6 +441,7 @@ def make_doc_case(zone, cs):
                        "pilotSignal": None if len(cs) % 2 else [pick(k) for k in range(0, len(cs), 3)]}}
 
 
+@guarded
 def replay_doc(dc):
     """parse_dates on a whole document."""
     from acnportal.acndata.utils import parse_dates
